@@ -1,5 +1,6 @@
 import Model.Frames
 import Proofs.Frames
+import Proofs.FramesRef
 
 /-! # C06 — function calls and closures behave as in Go regardless of frame recycling
 
@@ -108,7 +109,7 @@ theorem addr_taken_not_reused (ops : List Op) (s s' : State) (outs : List Slot) 
   have key : ∀ o nb ni, e = (alloc true s o nb ni).2 → getF s'.heap e = getF (alloc true s o nb ni).1.heap e →
       (getF s'.heap e).addr = false := by
     intro o nb ni he1 he2
-    have hs := alloc_spec true s o nb ni hi.pool_lt
+    have hs := alloc_spec true s o nb ni (fun _ => hi.pool_lt)
     rw [he2, he1, hs.new_addr]
     rcases hs.pool with ⟨hp, _⟩ | ⟨he3, _, _⟩
     · exact hi.pool_noaddr _ (by rw [hp]; simp)
@@ -207,13 +208,50 @@ theorem monitor_inv_sound (ops : List Op) (s : State) (outs : List Slot)
       exact hp.no_ptr p hpp q hq (by rw [ha, hqa])
     · rfl
 
-/-! ### non-vacuity: concrete histories that exercise the hypotheses -/
-
 /-- a closure escapes, its frame is kept; a plain call is recycled; the next call reuses it -/
 def demoOps : List Op :=
   [.makeClosure, .call 0 1 1, .write 0 true 0 7, .makeClosure, .ret,        -- frame 2 captured: not pooled
    .call 0 1 1, .write 0 true 0 5, .takeAddr 0 0, .ret,                     -- frame 3: address taken, pooled without Ints
    .call 1 2 1, .blockEnter 1 0, .write 1 true 0 9, .read 1 true 0, .readPtr 0, .jumpOut 1, .ret]
+
+/-! ### refinement: behaviour is independent of recycling -/
+
+/-- **pool_refines_fresh** (general form): whenever the FreshMachine (no recycling: Go's semantics
+    of fresh variables per call / block) can run an operation sequence, so can the PoolMachine,
+    it performs the same number of reads, and every read that returns a WRITTEN value in the
+    FreshMachine returns the same value in the PoolMachine. -/
+theorem pool_refines_fresh_reads (ops : List Op) (sf : State) (outs : List Slot)
+    (hf : runFresh init ops = some (sf, outs)) :
+    ∃ sp outsp, runPool init ops = some (sp, outsp) ∧ OutsRef outs outsp := by
+  obtain ⟨sp, outsp, h1, _, h3⟩ := sim_run rel_init hf
+  exact ⟨sp, outsp, h1, h3⟩
+
+/-- **pool_refines_fresh**: if no read of the FreshMachine run hits a slot that was never written
+    since its frame was allocated (the def-before-use discipline of compiled code), the
+    PoolMachine returns exactly the same values: observable behaviour is independent of frame
+    recycling, for every operation sequence. -/
+theorem pool_refines_fresh (ops : List Op) (sf : State) (outs : List Slot)
+    (hf : runFresh init ops = some (sf, outs)) (hdef : ∀ o ∈ outs, o ≠ none) :
+    ∃ sp, runPool init ops = some (sp, outs) := by
+  obtain ⟨sp, outsp, h1, _, h3⟩ := sim_run rel_init hf
+  refine ⟨sp, ?_⟩
+  show run true init ops = some (sp, outs)
+  rw [h1, outsRef_eq h3 hdef]
+
+/-! ### non-vacuity: concrete histories that exercise the hypotheses -/
+
+/-- the hypotheses of pool_refines_fresh hold on a history with recycling, escape and pointers -/
+example : ∃ sf, runFresh init demoOps = some (sf, [some 9, some 5]) ∧ ∀ o ∈ [some (9 : Int), some 5], o ≠ none := by
+  refine ⟨_, rfl, ?_⟩
+  decide
+
+/-- and the def-before-use hypothesis is needed: a read before any write sees the stale content
+    of the recycled frame in the PoolMachine, "never written" in the FreshMachine -/
+def staleOps : List Op := [.makeClosure, .call 0 0 1, .write 0 true 0 7, .ret, .call 0 0 1, .read 0 true 0]
+
+example : (runPool init staleOps).map (·.2) = some [some 7] ∧ (runFresh init staleOps).map (·.2) = some [none] := by
+  decide
+
 
 example : ∃ s outs, runPool init demoOps = some (s, outs) ∧ outs = [some 9, some 5] ∧ s.pool = [3] ∧ s.clos = [1, 2] := by
   refine ⟨_, _, rfl, ?_⟩
